@@ -16,19 +16,20 @@ USES_GEN = False
 
 META = {
     "technique": "hand models mirroring the C loops (generic over MjNum: same traversal order, same association of every sum, bounds-carrying or checked array accesses) + Lean 4 proofs over the reals (loop invariants over Nat.fold / checked loops, Finset sums, index arithmetic by omega, field_simp/ring for the Cholesky algebra, Mathlib matrices for the certificates) + differential correspondence of the compiled models on Float against the real routines (bitwise in the scalar build, 1e-10 relative in the AVX build; observed deviation 0) + certificate / dense-reference oracle on the real outputs",
-    "text": "Models (lean/MjProof/Model/LinAlg.lean, Model/Sparse.lean) of mju_dot, mju_mulMatVec, mju_mulMatTVec, mju_sqrMatTD, mju_cholFactor, mju_cholSolve, mju_cholUpdate, mju_dense2Band, mju_band2Dense, mju_bandDiag, mju_factorLU, mju_solveLU, mju_dotSparse, mju_mulMatVecSparse, mju_mulMatTVecSparse, mju_addToSymSparse, mju_mulSymVecSparse, mju_sparse2dense, mju_dense2sparse, mju_compressSparse, mju_transposeSparse, mju_combineSparseCount and mju_combineSparse. Proved for every size and every input (over the reals): mju_dot (4-accumulator unrolling + remainder group) and mju_mulMatVec / mju_mulMatTVec / mju_sqrMatTD equal the sums that define them; band_dense_roundtrip: for all ntotal, nband >= 1, ndense <= ntotal and both flg_sym, band2Dense(dense2Band(A)) reproduces A on every band-admissible entry, is 0 elsewhere in the lower triangle and 0 / mirrored above the diagonal, with every access in range, and mju_bandDiag is the address of (i,i); on ANY CSR-style pattern (row extents inside the buffers and stored columns < nc are the only assumptions: empty rows, unsorted and duplicate columns, gaps, rows in any order, the uncompressed layout): mju_dotSparse = dense dot with the scattered vector, mju_mulMatVecSparse = dense M v, mju_mulMatTVecSparse = dense M^T v (zero multipliers skipped), mju_addToSymSparse = dense addition with optional mirroring; with distinct columns per row mju_sparse2dense writes the represented matrix; sparse2dense(dense2sparse(M)) = M whenever the capacity is at least the number of non-zeros (no overflow exit, valid sorted pattern), and dense2sparse(sparse2dense(P)) represents the same matrix as P; mju_compressSparse (rows in increasing address order) performs only in-range accesses, makes the rows contiguous and keeps exactly the entries with |v| > minval (all of them for minval < 0); mju_transposeSparse (addresses relative to rowadr[0] = 0, enough output capacity) performs only in-range accesses and its output row c represents column c of the input, contiguous, with valid and non-decreasing column indices; mju_combineSparse on strictly increasing index arrays whose union fits the buffers performs only in-range accesses, returns nnz = size of the union (as counted by mju_combineSparseCount), a strictly increasing result pattern and a*dst + b*src as the represented vector (in-place backward merge, identical-pattern fast path and the a == 1 shortcut included); cholSolve_correct: for every matrix with non-zero diagonal mju_cholSolve solves (L L^T) x = b with L the lower triangle (upper triangle ignored); cholFactor_reconstructs_partial: if mju_cholFactor reports full rank (mindiag > 0) then L has positive diagonal, L L^T = A on the lower triangle and the upper triangle is untouched, hence (for symmetric A) factor + solve gives A x = b; cholUpdate_eq_refactor_partial: if mju_cholUpdate reports rank n then L' L'^T = L L^T +/- x x^T; certificate theorems: A V = V diag(lam), V^T V = I imply A = V diag(lam) V^T with eigenvector columns (eig3), KKT sign conditions imply global optimality of a box-constrained QP with symmetric PSD Hessian (boxQP), and stationarity + complementary slackness with a non-negative multiplier imply global optimality for the ellipsoid-constrained QP (QCQP2/3/QCQP).",
-    "note": "Real numbers, not IEEE: rounding is outside the proofs (the tie to the compiled code is bitwise on Float in the scalar build; in the AVX build only the sign of a zero could differ, none observed). `_partial` theorems: cholFactor is proved correct on the full-rank path (what is missing: that an SPD input always takes it; the deficiency branch that substitutes mindiag and clears the column is covered by the correspondence only); cholUpdate is proved to produce *a* Cholesky factor of the updated matrix on the no-rank-loss path (uniqueness of the factor, i.e. literal equality with mju_cholFactor of the updated matrix, and the mjMINVAL branch are not proved). Modelled and tied bitwise but without a theorem (sampled: differential + dense oracle): mju_factorLU / mju_solveLU (oracle: L U = P A, (L U) x = P b), mju_mulSymVecSparse. Not modelled, oracle only on the real code: mju_eig3, mju_boxQP, mju_QCQP2/3/QCQP (iterative; checked against the certificates whose soundness is proved), mju_cholFactorBand / mju_cholSolveBand / mju_bandMulMatVec (against dense arithmetic on band-admissible SPD matrices), mju_sqrMatTDSparse (legacy) and mju_sqrMatTDSparseSymbolic/Numeric with and without supernodes (against mju_sqrMatTD), the supernode path of mju_mulMatVecSparse (AVX only). Observed accuracy limits of the real code, encoded in the oracle tolerances and reported, not treated as violations: mju_eig3 stops rotating below 1.4e-6 rad (early exit `c > 1 - eigEPS`), leaving |A V - V diag| up to ~3.5e-6 * max|A| while eigenvalues and orthonormality are accurate to 1e-12; mju_QCQP* run at most 20 Newton steps from la = 0 and return the last iterate unprojected, so feasibility is reached only when |unconstrained minimiser| / r is below ~100 (the engine projects afterwards: `in case QCQP is approximate`); the oracle checks stationarity everywhere and feasibility / tightness for ratios <= 30. mju_transposeSparse addresses mat / colind relative to rowadr[0] (calling convention of the C code), the theorem is for rowadr[0] = 0, the correspondence also covers gaps between rows. res_rowsuper outputs are not modelled (NULL).",
+    "text": "Models (lean/MjProof/Model/LinAlg.lean, Model/Sparse.lean) of mju_dot, mju_mulMatVec, mju_mulMatTVec, mju_sqrMatTD, mju_cholFactor, mju_cholSolve, mju_cholUpdate, mju_dense2Band, mju_band2Dense, mju_bandDiag, mju_factorLU, mju_solveLU, mju_dotSparse, mju_mulMatVecSparse, mju_mulMatTVecSparse, mju_addToSymSparse, mju_mulSymVecSparse, mju_sparse2dense, mju_dense2sparse, mju_compressSparse, mju_transposeSparse, mju_combineSparseCount and mju_combineSparse. Proved for every size and every input (over the reals): mju_dot (4-accumulator unrolling + remainder group) and mju_mulMatVec / mju_mulMatTVec / mju_sqrMatTD equal the sums that define them; band_dense_roundtrip: for all ntotal, nband >= 1, ndense <= ntotal and both flg_sym, band2Dense(dense2Band(A)) reproduces A on every band-admissible entry, is 0 elsewhere in the lower triangle and 0 / mirrored above the diagonal, with every access in range, and mju_bandDiag is the address of (i,i); on ANY CSR-style pattern (row extents inside the buffers and stored columns < nc are the only assumptions: empty rows, unsorted and duplicate columns, gaps, rows in any order, the uncompressed layout): mju_dotSparse = dense dot with the scattered vector, mju_mulMatVecSparse = dense M v, mju_mulMatTVecSparse = dense M^T v (zero multipliers skipped), mju_addToSymSparse = dense addition with optional mirroring; mju_mulSymVecSparse on symmetric lower-triangular storage (diagonal last in every row) = (D + strict_lower(D)^T) v with every access in range; with distinct columns per row mju_sparse2dense writes the represented matrix; sparse2dense(dense2sparse(M)) = M whenever the capacity is at least the number of non-zeros (no overflow exit, valid sorted pattern), and dense2sparse(sparse2dense(P)) represents the same matrix as P; mju_compressSparse (rows in increasing address order) performs only in-range accesses, makes the rows contiguous and keeps exactly the entries with |v| > minval (all of them for minval < 0); mju_transposeSparse (addresses relative to rowadr[0] = 0, enough output capacity) performs only in-range accesses and its output row c represents column c of the input, contiguous, with valid and non-decreasing column indices; mju_combineSparse on strictly increasing index arrays whose union fits the buffers performs only in-range accesses, returns nnz = size of the union (as counted by mju_combineSparseCount), a strictly increasing result pattern and a*dst + b*src as the represented vector (in-place backward merge, identical-pattern fast path and the a == 1 shortcut included); cholSolve_correct: for every matrix with non-zero diagonal mju_cholSolve solves (L L^T) x = b with L the lower triangle (upper triangle ignored); cholFactor_reconstructs_partial: if mju_cholFactor reports full rank (mindiag > 0) then L has positive diagonal, L L^T = A on the lower triangle and the upper triangle is untouched, hence (for symmetric A) factor + solve gives A x = b; cholUpdate_eq_refactor_partial: if mju_cholUpdate reports rank n then L' L'^T = L L^T +/- x x^T; certificate theorems: A V = V diag(lam), V^T V = I imply A = V diag(lam) V^T with eigenvector columns (eig3), KKT sign conditions imply global optimality of a box-constrained QP with symmetric PSD Hessian (boxQP), and stationarity + complementary slackness with a non-negative multiplier imply global optimality for the ellipsoid-constrained QP (QCQP2/3/QCQP).",
+    "note": "Real numbers, not IEEE: rounding is outside the proofs (the tie to the compiled code is bitwise on Float in the scalar build; in the AVX build only the sign of a zero could differ, none observed). `_partial` theorems: cholFactor is proved correct on the full-rank path (what is missing: that an SPD input always takes it; the deficiency branch that substitutes mindiag and clears the column is covered by the correspondence only); cholUpdate is proved to produce *a* Cholesky factor of the updated matrix on the no-rank-loss path (uniqueness of the factor, i.e. literal equality with mju_cholFactor of the updated matrix, and the mjMINVAL branch are not proved). Modelled and tied bitwise but without a theorem (sampled: differential + dense oracle): mju_factorLU / mju_solveLU (oracle: L U = P A, (L U) x = P b). Not modelled, oracle only on the real code: mju_eig3, mju_boxQP, mju_QCQP2/3/QCQP (iterative; checked against the certificates whose soundness is proved), mju_cholFactorBand / mju_cholSolveBand / mju_bandMulMatVec (against dense arithmetic on band-admissible SPD matrices), mju_sqrMatTDSparse (legacy) and mju_sqrMatTDSparseSymbolic/Numeric with and without supernodes (against mju_sqrMatTD), the supernode path of mju_mulMatVecSparse (AVX only). Observed accuracy limits of the real code, encoded in the oracle tolerances and reported, not treated as violations: mju_eig3 stops rotating below 1.4e-6 rad (early exit `c > 1 - eigEPS`), leaving |A V - V diag| up to ~3.5e-6 * max|A| while eigenvalues and orthonormality are accurate to 1e-12; mju_QCQP* run at most 20 Newton steps from la = 0 and return the last iterate unprojected, so feasibility is reached only when |unconstrained minimiser| / r is below ~100 (the engine projects afterwards: `in case QCQP is approximate`); the oracle checks stationarity everywhere and feasibility / tightness for ratios <= 30. mju_transposeSparse addresses mat / colind relative to rowadr[0] (calling convention of the C code), the theorem is for rowadr[0] = 0, the correspondence also covers gaps between rows. res_rowsuper outputs are not modelled (NULL).",
 }
 
 P = "MjProof.C23."
 THEOREMS = [P + t for t in (
-    "dot_eq_sum", "mulMatVec_eq",
+    "dot_eq_sum", "mulMatVec_eq", "mulMatTVec_eq", "sqrMatTD_eq",
     "cholSolve_correct", "cholFactor_reconstructs_partial", "cholFactor_cholSolve_solves",
     "cholUpdate_eq_refactor_partial",
     "band_dense_roundtrip", "bandDiag_eq_addr",
     "dotSparse_eq_dense", "mulMatVecSparse_eq_dense", "mulMatTVecSparse_eq_dense", "addToSymSparse_eq_dense",
     "sparse2dense_eq_dense", "sparse2dense_dense2sparse", "dense2sparse_sparse2dense",
-    "compressSparse_preserves", "transposeSparse_eq_dense",
+    "compressSparse_preserves", "transposeSparse_eq_dense", "mulSymVecSparse_eq_dense",
+    "combineSparseCount_eq", "combineSparse_eq_dense",
     "eig3_certificate", "boxQP_certificate", "QCQP_certificate",
 )]
 
@@ -968,14 +969,14 @@ def run(ctx):
                 "distinct by its full line; non-trivial = size >= 2")
     ctx.lean_props(THEOREMS)
     drv = ctx.driver("drv_c23")
-    n_each = 1500 if thorough else 110
+    n_each = 4000 if thorough else 110
     pairs = gen_lines(ctx, n_each)
     lines = [l for _, l in pairs]
     hist = {}
     for k, _ in pairs:
         hist[k] = hist.get(k, 0) + 1
     ctx.extra["op_histogram"] = hist
-    opairs = gen_oracle_lines(ctx, 2000 if thorough else 150)
+    opairs = gen_oracle_lines(ctx, 4000 if thorough else 150)
     olines = [l for _, l in opairs]
 
     def keyf(l):
